@@ -46,7 +46,7 @@ def make_dir_state(root, state, future_names):
     if state == "stale-output":
         for n in future_names[:2] or ["default.fcp"]:
             with open(os.path.join(out, n), "w") as f:
-                f.write("STALE " + n + "\n")
+                f.write("STALE " + n + "\n" + "/* stale tail that is longer than any generated file */\n" * 20000)
     elif state == "unrelated":
         with open(os.path.join(out, "notes.txt"), "w") as f:
             f.write("keep me\n")
@@ -249,7 +249,10 @@ def run_histories(S, tier):
 
     depth = 2 if tier == "quick" else 3
     texts = {"good": GOOD["can1"], "bad": BAD["dup-field-middle"], "good2": GOOD["svc"]}
-    ops = [(g, s) for g in ("dbc", "can_c", "cpp") for s in ("good", "bad")] + [("can_c", "good2")]
+    texts["dupid"] = BAD_PLUGIN["dbc"]["dup-can-id"]
+    ops = [(g, s) for g in ("dbc", "can_c", "cpp") for s in ("good", "bad")] + [("can_c", "good2"), ("nop", "dupid"), ("dbc", "dupid"), ("nop", "good")]
+    # the schema objects are parsed ONCE and shared by every call of a history (a verdict cached per object would show)
+    parsed = {k: get_fcp_from_string(t, Logger({})).unwrap() for k, t in texts.items()}
     root = tempfile.mkdtemp(prefix="fcpmc-c10h-")
     try:
         live = {"mgr": GeneratorManager(make_general_verifier()), "dir": make_dir_state(os.path.join(root, "d0") if os.makedirs(os.path.join(root, "d0")) is None else root, "unrelated", [])}
@@ -261,7 +264,7 @@ def run_histories(S, tier):
             shutil.copytree(live["dir"], out)
             live["dir"] = out
             before = snapshot(out)
-            fcp = get_fcp_from_string(texts[sname], Logger({})).unwrap()
+            fcp = parsed[sname]
             try:
                 with contextlib.redirect_stdout(io.StringIO()):
                     r = live["mgr"].generate(gen_name, None, None, fcp, out)
@@ -270,7 +273,7 @@ def run_histories(S, tier):
                 verdict = "exception:" + type(e).__name__
             after = snapshot(out)
             res = {"verdict": verdict, "touched": after != before}
-            if sname != "bad" and verdict == "ok":
+            if sname not in ("bad", "dupid") and verdict == "ok":
                 exp = expected_files(gen_name, texts[sname], new)
                 got = {}
                 for k in exp:
@@ -293,7 +296,13 @@ def run_histories(S, tier):
                 continue
             g, s = hist[-1]
             S.add("outcomes", ("hist", s, o["verdict"].split(":")[0]))
-            if s == "bad":
+            rejected = s == "bad" or (s == "dupid" and (g == "dbc" or any(h[0] == "dbc" for h in hist[:-1])))
+            if s == "dupid" and not rejected:
+                # duplicate CAN ids are only a DBC plug-in rule: before any dbc call on this manager nop accepts it
+                if o["verdict"] != "ok":
+                    S.violation("C10.accept", "C10.accept/valid-schema-not-generated/%s/history:%s" % (g, o["verdict"]), inp, expected="ok", actual=o)
+                continue
+            if rejected:
                 if o["verdict"] == "ok":
                     S.violation("C10.gate", "C10.gate/no-error-reported/%s/history" % g, inp, expected="error", actual=o)
                 if o["touched"]:
